@@ -17,6 +17,7 @@ from sa.pyfront import Program
 from sa.symex import Interp
 
 RULES = {
+    "R-C17-e": "the compiled kernels keep no state between calls: every buffer they write is allocated inside the call (no module-level / `global` workspace)",
     "R-C17-a": "no entry point writes storage reachable from a caller-supplied argument (every store target is FRESH or a view of FRESH)",
     "R-C17-b": "outside constructors nothing rebinds or mutates self / aggregator state, except the named diagnostics (tracing, intersection_data_points, _tracing)",
     "R-C17-c": "get_initial_regions returns freshly allocated arrays on every call",
@@ -199,6 +200,12 @@ def main(tier):
         if fi.opaque:
             continue
         analyse_root(prog, fi, kind, rep, stats)
+    from sa import cyfront, cystate
+    kn = 0
+    for status, where, cons, detail in cystate.analyse(cyfront.load()):
+        kn += 1
+        rep.add("R-C17-e", where, cons, status, detail, True, {"history": "pooled ccube evaluation with poolsize >= 2: two tasks intersect into the same workspace at once and one receives the other's row ids"} if status == "VIOLATED" else None)
+    rep.floor("R-C17-e", 4, kn)
     rep.analysed["roots"] = ["%s [%s]" % (fi.fq, k) for fi, k in roots]
     rep.analysed["events"] = stats["events"]
     rep.analysed["write_events_classified"] = stats["mods"]
